@@ -1,5 +1,7 @@
 import Dagrt.Proofs.FuseProofs
 import Dagrt.Proofs.RenameProofs
+import Dagrt.Proofs.RenameOnProofs
+import Dagrt.Proofs.FuseInjProofs
 import Dagrt.Proofs.StmtProofs
 /-!
 # C16 — fusing two methods runs both on shared persistent state without interference
@@ -245,6 +247,49 @@ theorem fused_second_method_results (F : Funs) (ρ : Name → Name) (hinj : ∀ 
   have h1 := fused_second_method_runs_as_alone F ρ hinj hF hexec B (runList F A σ0) x
   rw [h1]
   exact runList_agree F S B _ _ hS hagree x hx
+
+/-! ### … for the renaming fusion itself computes -/
+
+/-- the names in play: what either method uses, and the event pseudo-variable -/
+def namesInUse (A B : List FStmt) : List Name := usedIdents A ++ usedIdents B ++ [EXEC]
+
+/-- **fusion's renaming is injective on the names in use**: replacements are fresh and pairwise
+    different (no replacement is spelled `<exec>`: they are derived from names of temporaries) -/
+theorem fusion_renaming_injective (pred : Name → Bool) (clash : List Name) (A B : List FStmt)
+    (sub : List (Name × Name)) (h : disambiguate pred clash (vng0 A B) [] = some sub)
+    (hE : ∀ p ∈ sub, p.2 ≠ EXEC) :
+    ∀ x ∈ namesInUse A B, ∀ y ∈ namesInUse A B, applySubst sub x = applySubst sub y → x = y := by
+  apply applySubst_injOn sub (targets_nodup pred clash (vng0 A B) sub h)
+  intro p hp hmem
+  simp only [namesInUse, List.mem_append, List.mem_singleton] at hmem
+  rcases hmem with hm | hm
+  · exact renamed_is_fresh pred clash A B sub h p hp (by simpa using hm)
+  · exact hE p hp hm
+
+/-- **The second method inside the fused method, with the renaming fusion computes**: every list of
+    statements whose names are names in use (any schedule of the second method's statements), run
+    after whatever the first method left in the store, ends in a store that holds under the new
+    names exactly what the statements ALONE make of that store read through the renaming — no
+    injectivity assumption left: it is proved of the model's `disambiguate` -/
+theorem fusion_second_method_runs_as_alone (pred : Name → Bool) (clash : List Name) (A B : List FStmt)
+    (sub : List (Name × Name)) (h : disambiguate pred clash (vng0 A B) [] = some sub)
+    (hE : ∀ p ∈ sub, p.2 ≠ EXEC) (hEc : EXEC ∉ clash)
+    (F : Funs) (hF : ∀ f vs ks, F (applySubst sub f) vs ks = F f vs ks) :
+    ∀ (l : List Stmt), (∀ s ∈ l, ∀ x ∈ stmtNames s, x ∈ namesInUse A B) → ∀ (σ σ' : Store),
+      RelOn (applySubst sub) (namesInUse A B) σ σ' →
+      RelOn (applySubst sub) (namesInUse A B) (runList F l σ) (runList F (l.map (renameStmt (applySubst sub))) σ')
+  | [], _, _, _, hr => hr
+  | s :: l, hn, σ, σ', hr => by
+    have hexec : applySubst sub EXEC = EXEC := by
+      obtain ⟨g', hi⟩ := sub_inv pred clash A B sub h
+      apply applySubst_of_not_key
+      intro p hp e
+      exact hEc (e ▸ (hi.keys p hp).2)
+    simp only [runList, List.map_cons, List.foldl_cons]
+    exact fusion_second_method_runs_as_alone pred clash A B sub h hE hEc F hF l
+      (fun s' hs' => hn s' (List.mem_cons_of_mem _ hs')) _ _
+      (exec_renameOn F (applySubst sub) (namesInUse A B) (fusion_renaming_injective pred clash A B sub h hE) hF hexec
+        (by simp [namesInUse]) s (hn s List.mem_cons_self) σ σ' hr)
 
 /-! non-vacuity: both methods use the temporary `a`, the flag `<cond>`, the id `p_0`, and read `<t>` -/
 def exA : List FStmt := [⟨"p_0".toList, [], ⟨.const (.bool true), .assign "a" none (.var "<t>") []⟩⟩]
